@@ -52,7 +52,13 @@ def main():
         sh('git -C /repo worktree remove --force %s' % WT)
         out_dir = os.path.join('/verif/seeded', name)
         os.makedirs(out_dir, exist_ok=True)
-        shutil.copy(os.path.join(d, 'patch.diff'), os.path.join(out_dir, 'patch.diff'))
+        if os.path.abspath(d) != os.path.abspath(out_dir):
+            shutil.copy(os.path.join(d, 'patch.diff'), os.path.join(out_dir, 'patch.diff'))
+        old = os.path.join(out_dir, 'meta.json')
+        if os.path.exists(old):     # keep the results of checks evaluated earlier
+            prev = json.load(open(old)).get('checks', {})
+            prev.update(meta.get('checks', {}))
+            meta['checks'] = prev
         with open(os.path.join(out_dir, 'meta.json'), 'w') as f:
             json.dump(meta, f, indent=1)
         print(name, 'suite', meta.get('suite_passes_patched'), {c: v['rc'] for c, v in meta.get('checks', {}).items() if v['rc'] != 0})
